@@ -814,7 +814,7 @@ pub fn run(ctx: &Ctx) -> Report {
     // (every clause list to seq_depth; every seq_deep_stride-th list, and a rule-defined handful of richer
     // formulas further down, to seq_deep)
     let (seq_depth, seq_stride) = (ctx.tier.pick(5, 6), ctx.tier.pick(1, 1));
-    let (seq_deep, seq_deep_stride) = (ctx.tier.pick(8, 9), ctx.tier.pick(61, 31));
+    let (seq_deep, seq_deep_stride) = (if crate::core::disabled("deep") { 6 } else { ctx.tier.pick(8, 9) }, ctx.tier.pick(61, 31));
     for (n, mut sets, name) in fams {
         let types = clause_types(n);
         ctx.rotate(&mut sets);
